@@ -5,14 +5,23 @@
 (* relational clause SurgeryClauses, for small meshes (<= 6 cells) x every     *)
 (* cell subset x tag subsets, and for compositions of two operations.          *)
 (*                                                                             *)
-(* DupModel = "current" : MC_C18.cfg     - remove_duplicate_nodes as repaired   *)
-(*                        by commit 0832543 (boundaries renumbered): must hold *)
-(* DupModel = "old"     : MC_C18_dup.cfg - the earlier version (tag arrays     *)
-(*                        kept verbatim) as a regression model: TLC must keep  *)
-(*                        refuting it (harness: old_dup_removal_refuted_by_tlc)*)
+(* Operands that store a point behind their highest used vertex and named     *)
+(* boundaries that list a facet twice are ordinary inputs.                     *)
+(*                                                                             *)
+(* Regress = "none"   : MC_C18.cfg - the transcriptions of the current code:   *)
+(*                      must hold                                              *)
+(* REGRESSION MODELS that TLC must keep refuting (harness: *_refuted_by_tlc):  *)
+(* Regress = "dup"    : MC_C18_dup.cfg    - remove_duplicate_nodes before      *)
+(*                      0832543 (tag arrays kept verbatim)                     *)
+(* Regress = "counts" : MC_C18_counts.cfg - to_meshtri(style='x') and tri*line *)
+(*                      before e738c29 (new points numbered from the highest   *)
+(*                      USED vertex + 1)                                       *)
+(* Regress = "repeat" : MC_C18_repeat.cfg - to_meshtri's facet lookup before   *)
+(*                      229e2bb (np.sort: a repeated facet id is looked up     *)
+(*                      twice with one shared iterator)                        *)
 EXTENDS Surgery
 
-CONSTANT DupModel
+CONSTANT Regress
 Tier == IF "TIER" \in DOMAIN IOEnv THEN IOEnv.TIER ELSE "quick"
 
 Twice(p) == [v \in DOMAIN p |-> [i \in DOMAIN p[v] |-> 2 * p[v][i]]]
@@ -69,8 +78,10 @@ DerivedS(m, F)  == {k \in CellsOf(m) : (k + Cardinality(F)) % 2 = 0}
 TagPairs(m, nf, small) ==
   IF small THEN {<<{}, {}>>, <<{1}, 1..nf>>, <<CellsOf(m) \ {1}, {f \in 1..nf : f % 2 = 0}>>}
   ELSE {<<S, DerivedF(nf, S)>> : S \in SUBSET CellsOf(m)} \cup {<<DerivedS(m, F), F>> : F \in FacetSubsets(nf)}
-Tagged(m, SF) == m @@ [sub |-> << [name |-> "s", ids |-> SortedSeq(SF[1])] >>,
-                       bnd |-> << [name |-> "b", ids |-> SortedSeq(SF[2])] >>]
+\* rep: the boundary array lists its first facet a second time (at the end)
+Tagged(m, SF, rep) ==
+  m @@ [sub |-> << [name |-> "s", ids |-> SortedSeq(SF[1])] >>,
+        bnd |-> << [name |-> "b", ids |-> SortedSeq(SF[2]) \o (IF rep /\ SF[2] # {} THEN <<MinSet(SF[2])>> ELSE <<>>)] >>]
 
 VARIABLES tm, c, depth, deep, failed, last
 vars == <<tm, c, depth, deep, failed, last>>
@@ -81,7 +92,8 @@ Only == IF "ONLY" \in DOMAIN IOEnv /\ IOEnv.ONLY # "" THEN {CHOOSE i \in 1..NM :
 Init == \E i \in Only : \E dp \in (IF Tier = "thorough" \/ Dim(MeshSeq[i].kind) = 2 THEN BOOLEAN ELSE {FALSE}) :
           /\ tm = MeshSeq[i] /\ c = ConnOfMesh(MeshSeq[i]) /\ depth = -1 /\ deep = dp /\ failed = {} /\ last = "init"
 Tag  == /\ depth = -1
-        /\ \E SF \in TagPairs(tm, Len(c.facets), deep) : tm' = Tagged(tm, SF)
+        /\ \E SF \in TagPairs(tm, Len(c.facets), deep) :
+           \E rp \in (IF Regress = "repeat" THEN {TRUE} ELSE IF deep THEN BOOLEAN ELSE {FALSE}) : tm' = Tagged(tm, SF, rp)
         /\ depth' = 0 /\ last' = "tag" /\ UNCHANGED <<c, deep, failed>>
 
 \* a second operand for +: the same cells shifted by the extent of the mesh along x (they touch along a side)
@@ -112,11 +124,16 @@ DoRemove ==
          c2 == ConnOfMesh(r.tm)
      IN Apply("remove_elements", r.tm, c2, Event("remove_elements", <<ProjAM(tm, c)>>, <<ProjAM(r.tm, c2)>>,
                                                 [NoPar EXCEPT !.elements = el]))
+\* the same mesh storing one more point behind all others, used by no cell (the facet numbering is not affected)
+WithTrailing(m) == [m EXCEPT !.p = m.p \o <<[i \in DOMAIN m.p[1] |-> -3]>>]
+Operand(stray) == IF stray THEN WithTrailing(tm) ELSE tm
 DoAdd ==
-  LET m2 == Shifted(tm)
-      r  == AddImpl(tm, m2)
+  \E stray \in BOOLEAN :
+  LET m1 == Operand(stray)
+      m2 == Shifted(tm)
+      r  == AddImpl(m1, m2)
       c2 == ConnOfMesh(r)
-  IN Apply("add", r, c2, Event("add", <<ProjAM(tm, c), ProjAM(m2, c)>>, <<ProjAM(r, c2)>>, NoPar))
+  IN Apply("add", r, c2, Event("add", <<ProjAM(m1, c), ProjAM(m2, c)>>, <<ProjAM(r, c2)>>, NoPar))
 DoUnused ==
   LET m1 == WithUnused(tm)
       c1 == ConnOfMesh(m1)
@@ -124,25 +141,39 @@ DoUnused ==
       c2 == ConnOfMesh(r)
   IN Apply("remove_unused_nodes", r, c2, Event("remove_unused_nodes", <<ProjAM(m1, c1)>>, <<ProjAM(r, c2)>>, NoPar))
 DoDup ==
-  LET rr == IF DupModel = "current" THEN RemoveDuplicateNodesImpl(tm, c, ConnOfMesh)
+  LET rr == IF Regress # "dup" THEN RemoveDuplicateNodesImpl(tm, c, ConnOfMesh)
             ELSE LET o == RemoveDuplicateNodesImplOld(tm) IN [tm |-> o, c |-> ConnOfMesh(o)]
   IN Apply("remove_duplicate_nodes", rr.tm, rr.c,
            Event("remove_duplicate_nodes", <<ProjAM(tm, c)>>, <<ProjAM(rr.tm, rr.c)>>, NoPar))
 DoTri ==
   /\ tm.kind = "quad"
-  /\ \E style \in {"", "x"} :
-       LET r  == ToMeshTriImpl(tm, c, style, ConnOfMesh)
+  /\ \E style \in {"", "x"} : \E stray \in BOOLEAN :
+       LET m1 == Operand(stray)
+           r  == ToMeshTriImplWith(m1, c, style, ConnOfMesh, IF Regress \in {"counts", "repeat"} THEN Regress ELSE "")
            op == IF style = "x" THEN "to_meshtri_x" ELSE "to_meshtri"
-       IN Apply(op, r.tm, r.c, Event(op, <<ProjAM(tm, c)>>, <<ProjAM(r.tm, r.c)>>, NoPar))
+       IN Apply(op, r.tm, r.c, Event(op, <<ProjAM(m1, c)>>, <<ProjAM(r.tm, r.c)>>, NoPar))
 DoTet ==
   /\ tm.kind \in {"hex", "wedge"}
-  /\ LET r  == ToMeshTetImpl(tm)
+  /\ \E stray \in BOOLEAN :
+     LET m1 == Operand(stray)
+         r  == ToMeshTetImpl(m1)
          c2 == ConnOfMesh(r)
-     IN Apply("to_meshtet", r, c2, Event("to_meshtet", <<ProjAM(tm, c)>>, <<ProjAM(r, c2)>>, NoPar))
+     IN Apply("to_meshtet", r, c2, Event("to_meshtet", <<ProjAM(m1, c)>>, <<ProjAM(r, c2)>>, NoPar))
+\* tri * line (mesh_tri_1.py:393-419) with a fixed two-cell line mesh; the prisms carry no tags
+LineM  == [kind |-> "line", p |-> << <<0>>, <<2>>, <<4>> >>, t |-> << <<1, 2>>, <<2, 3>> >>, sub |-> <<>>, bnd |-> <<>>]
+NoConn == [facets |-> <<>>, f2t |-> <<>>, t2f |-> <<>>]
+DoExtrude ==
+  /\ tm.kind = "tri" /\ Len(tm.t) <= 4
+  /\ \E stray \in BOOLEAN :
+     LET m1 == Operand(stray)
+         cl == IF Regress = "counts" THEN ExtrudeTriLineCellsOld(m1, LineM) ELSE ExtrudeTriLineCells(m1, LineM)
+         r  == [kind |-> "wedge", p |-> cl.p, t |-> cl.t, sub |-> <<>>, bnd |-> <<>>]
+         c2 == ConnOfMesh(r)
+     IN Apply("extrude", r, c2, Event("extrude", <<ProjAM(m1, c), ProjAM(LineM, NoConn)>>, <<ProjAM(r, c2)>>, NoPar))
 
 Next == \/ Tag
         \/ /\ depth = 0 \/ (depth = 1 /\ deep)
-           /\ DoRestrict \/ DoRemove \/ DoAdd \/ DoUnused \/ DoDup \/ DoTri \/ DoTet
+           /\ DoRestrict \/ DoRemove \/ DoAdd \/ DoUnused \/ DoDup \/ DoTri \/ DoTet \/ DoExtrude
 Spec == Init /\ [][Next]_vars
 
 ClausesHold == failed = {}
